@@ -68,6 +68,9 @@ type Resp struct {
 	HW    string // v4 chaddr
 	// Damaged: the message carries a nonce but not the intact trailer of that datagram (it is not the datagram that arrived)
 	Damaged bool
+	// Again reads the same message object once more (the caller keeps what a call returned; later traffic on the
+	// client must not change it).  nil for a nil message.
+	Again func() Resp
 }
 
 type MatchFn func(Resp) bool
@@ -250,6 +253,7 @@ func resp4(p *dhcpv4.DHCPv4) Resp {
 		r.Nonce = int(binary.BigEndian.Uint32(v))
 		r.Damaged = !bytes.Equal(p.Options.Get(dhcpv4.GenericOptionCode(tailOpt4)), Tail(r.Nonce))
 	}
+	r.Again = func() Resp { return resp4(p) }
 	return r
 }
 
@@ -375,6 +379,7 @@ func resp6(m *dhcpv6.Message) Resp {
 			r.Damaged = t == nil || !bytes.Equal(t.ToBytes(), Tail(r.Nonce))
 		}
 	}
+	r.Again = func() Resp { return resp6(m) }
 	return r
 }
 
